@@ -9,7 +9,9 @@
 (* knows).  The model is parameterised by the design decisions whose       *)
 (* alternatives are plausible refactorings:                                *)
 (*   order  "split_unescape" | "unescape_split"  -- members are unescaped  *)
-(*          after / before the text is split at the delimiters             *)
+(*          after / before the text is split at the delimiters;            *)
+(*          "split_qunescape" -- after, but by the query's rules ("+" is   *)
+(*          a space), which are not those of a path segment                *)
 (*   closed "drop" | "keep" | "keep_own" -- what object assembly does with *)
 (*          a property the schema does not declare when                    *)
 (*          additionalProperties: false: drop it silently; keep it as sent *)
@@ -85,28 +87,30 @@ MakeObject(closed, s, props) ==
 Kind(s) == IF Has(s, "type") /\ s.type = "array" THEN "arr" ELSE IF Has(s, "type") /\ s.type = "object" THEN "obj" ELSE "prim"
 
 (* ------------------------------- path ------------------------------- *)
+PlusIn(order, location) == location = "query" \/ order = "split_qunescape"
 Members(order, src, delim, plus) ==
-   IF order = "split_unescape" THEN LET ms == Split(src, delim) IN [i \in DOMAIN ms |-> Unesc(ms[i], plus)]
+   IF order \in {"split_unescape", "split_qunescape"} THEN LET ms == Split(src, delim) IN [i \in DOMAIN ms |-> Unesc(ms[i], plus)]
    ELSE Split(Unesc(src, plus), delim)
 
 DecodePath(order, closed, c, name, s, seg) ==
    LET k == Kind(s)
+       pl == PlusIn(order, "path")
        prefix == CASE c.style = "simple" -> <<>>
                    [] c.style = "label" -> <<".">>
                    [] c.style = "matrix" -> IF k = "obj" /\ c.explode THEN <<";">> ELSE <<";">> \o name \o <<"=">>
        src == Drop(seg, Len(prefix)) IN
    IF ~StartsWith(seg, prefix) THEN Fail
-   ELSE CASE k = "prim" -> ParsePrim(s, Unesc(src, FALSE))
+   ELSE CASE k = "prim" -> ParsePrim(s, Unesc(src, pl))
           [] k = "arr"  -> ParseItems(s, Members(order, src, CASE c.style = "label" /\ c.explode -> <<".">>
                                                                  [] c.style = "matrix" /\ c.explode -> <<";">> \o name \o <<"=">>
-                                                                 [] OTHER -> <<",">>, FALSE))
+                                                                 [] OTHER -> <<",">>, pl))
           [] k = "obj"  ->
                LET propsDelim == CASE c.style = "label" /\ c.explode -> <<".">> [] c.style = "matrix" /\ c.explode -> <<";">> [] OTHER -> <<",">>
                    \* the members and, for name=value members, their two halves are unescaped per the same design decision
-                   ps == IF order = "split_unescape"
+                   ps == IF order \in {"split_unescape", "split_qunescape"}
                          THEN LET r == Props(Split(src, propsDelim), ~c.explode, <<"=">>) IN
-                              IF r.ok THEN Ok([i \in DOMAIN r.val |-> Pair(Unesc(r.val[i].k, FALSE), Unesc(r.val[i].v, FALSE))]) ELSE Fail
-                         ELSE Props(Split(Unesc(src, FALSE), propsDelim), ~c.explode, <<"=">>) IN
+                              IF r.ok THEN Ok([i \in DOMAIN r.val |-> Pair(Unesc(r.val[i].k, pl), Unesc(r.val[i].v, pl))]) ELSE Fail
+                         ELSE Props(Split(Unesc(src, pl), propsDelim), ~c.explode, <<"=">>) IN
                IF ps.ok THEN MakeObject(closed, s, ps.val) ELSE Fail
 
 (* ------------------------- query, style form ------------------------- *)
